@@ -59,6 +59,10 @@ OF OR IN CONNECTION WITH THE SOFTWARE OR THE USE OR OTHER DEALINGS IN THE SOFTWA
 #include <iomanip>
 #include <algorithm>
 
+#ifdef OPENSMT_VERIF
+#include <common/VerifTrace.h>
+#endif
+
 namespace opensmt {
 
 //=================================================================================================
@@ -229,6 +233,9 @@ bool CoreSMTSolver::addOriginalClause_(vec<Lit> && _ps)
 bool CoreSMTSolver::addOriginalClause_(vec<Lit> && ps, pair<CRef, CRef> & inOutCRefs)
 {
     assert(decisionLevel() == 0);
+#ifdef OPENSMT_VERIF
+    veriftrace::clause(verifDerivedClause ? "d" : "o", static_cast<void const *>(&theory_handler), ps);
+#endif
     inOutCRefs = {CRef_Undef, CRef_Undef};
     if (!isOK()) { return false; }
     bool logProof = this->logsResolutionProof();
@@ -1020,6 +1027,9 @@ void CoreSMTSolver::analyzeFinal(Lit p, vec<Lit>& out_conflict)
     }
     assert(seen[var(p)] == 0);
     seen[var(p)] = 0;
+#ifdef OPENSMT_VERIF
+    veriftrace::clause("f", static_cast<void const *>(&theory_handler), out_conflict);
+#endif
     if (logsResolutionProof()) {
         // MB: Hopefully we have resolved away all literals including assumptions
         resolutionProof->endChain(CRef_Undef);
@@ -1452,6 +1462,9 @@ lbool CoreSMTSolver::search(int nof_conflicts)
             analyze(confl, learnt_clause, backtrack_level);
 
             cancelUntil(backtrack_level);
+#ifdef OPENSMT_VERIF
+            veriftrace::clause("l", static_cast<void const *>(&theory_handler), learnt_clause);
+#endif
 
             assert(value(learnt_clause[0]) == l_Undef);
 
